@@ -313,7 +313,11 @@ func (p *Prog) memWritesOf(fns []*ssa.Function) []memWrite {
 			for _, in := range b.Instrs {
 				switch in := in.(type) {
 				case *ssa.Store:
-					out = append(out, memWrite{fn, in, memRoot(in.Addr, fn, 0), "store to " + x.Of(in.Addr, in).String()})
+					root := memRoot(in.Addr, fn, 0)
+					if _, isParam := in.Addr.(*ssa.Parameter); isParam {
+						root += ":whole" // *p = v: every field at once (never one of the tabled field-wise writers)
+					}
+					out = append(out, memWrite{fn, in, root, "store to " + x.Of(in.Addr, in).String()})
 				case *ssa.MapUpdate:
 					root := memRoot(in.Map, fn, 0)
 					if strings.HasPrefix(root, "param:") && p.freshMapAtEveryCaller(in.Map, fn) {
